@@ -148,10 +148,12 @@ pub fn run(rep: &'static Report) {
         for c in &cs {
             let want = reference_state(c, None);
             let want_next = reference_state(c, Some(c.next));
-            let bound = match (c.sc.threads.len(), thorough) {
-                (2, false) => 2,
-                (2, true) => 4,
-                (_, _) => 2,
+            // the scan's last phase has ≈4× the scheduling points of a single analysis: one preemption less
+            let bound = match (c.sc.threads.len(), thorough, c.reference.is_some()) {
+                (2, false, _) => 2,
+                (2, true, false) => 4,
+                (2, true, true) => 3,
+                (_, _, _) => 2,
             };
             // distinct quiescent states: ordered fingerprint -> database (for the second clause)
             let quiescent: Mutex<BTreeMap<u64, Arc<FixtureDatabase>>> = Mutex::new(BTreeMap::new());
